@@ -121,7 +121,8 @@ class Contract:
     def __init__(self, name, fn, params, result=None, requires=None, ensures=None, raises=None,
                  modifies=None, loops=None, decreases=None, depth=None, assumed=False,
                  raises_post=None, pure=False, locals_types=None, cls=None, ghost_args=None,
-                 may_raise_any=False, notes='', allow_implicit=(), mutates=(), asserts_raise=False, invariants=None):
+                 may_raise_any=False, notes='', allow_implicit=(), mutates=(), asserts_raise=False, invariants=None, rec_group=None):
+        self.rec_group = rec_group          # mutually recursive functions sharing one `decreases` measure
         self.name, self.fn = name, getattr(fn, '__func__', fn)
         self.params, self.result = params, result
         self.requires, self.ensures = requires, ensures
